@@ -8,9 +8,11 @@ use crate::scenario::*;
 pub mod gen;
 pub mod conv;
 pub mod c01;
+pub mod c02;
 pub mod c06;
 pub mod c07;
 pub mod c08;
+pub mod c09;
 pub mod c10;
 
 #[derive(Clone, Copy, Debug, PartialEq, Eq)]
@@ -67,7 +69,7 @@ pub trait Campaign: Sync {
 }
 
 pub fn all() -> Vec<&'static dyn Campaign> {
-    vec![&c01::C01, &c06::C06, &c07::C07, &c07::C17, &c08::C08, &c08::C20, &c10::C10, &c10::C16, &c10::C12]
+    vec![&c01::C01, &c06::C06, &c07::C07, &c07::C17, &c08::C08, &c08::C20, &c10::C10, &c10::C16, &c10::C12, &c09::C09, &c09::C11, &c09::C18, &c02::C02, &c02::C03]
 }
 
 pub fn by_id(id: &str) -> Option<&'static dyn Campaign> {
